@@ -131,6 +131,7 @@ def config_get(ctx: click.Context, key: str) -> None:
         thai-lint config get greeting
     """
     cfg = ctx.obj["config"]
+    key = _normalize_key(key)
 
     if key not in cfg:
         click.echo(f"Configuration key not found: {key}", err=True)
@@ -142,6 +143,11 @@ def config_get(ctx: click.Context, key: str) -> None:
 # =============================================================================
 # Config Set Command
 # =============================================================================
+
+
+def _normalize_key(key: str) -> str:
+    """Spell a key the way config files are loaded (hyphens become underscores)."""
+    return key.replace("-", "_")
 
 
 def _convert_value_type(value: str) -> bool | int | float | str:
@@ -202,6 +208,7 @@ def config_set(ctx: click.Context, key: str, value: str) -> None:
         thai-lint config set max_retries 5
     """
     cfg = ctx.obj["config"]
+    key = _normalize_key(key)
     converted_value = _convert_value_type(value)
     cfg[key] = converted_value
 
